@@ -25,7 +25,7 @@ def main():
 
     # interpreter configuration: normally PYTHONHASHSEED=0 and no -O; the engine's configuration sweep and replays of failures found
     # there name their own (PYTHONOPTIMIZE / PYTHONHASHSEED), which must be in place before the interpreter starts
-    KEYS = ("PYTHONHASHSEED", "PYTHONOPTIMIZE", "PANDAS_COPY_ON_WRITE", "VERIF_LOGGING", "VERIF_WEAK_HASH", "OMP_NUM_THREADS", "VERIF_INTERRUPT_FIRST")
+    KEYS = ("PYTHONHASHSEED", "PYTHONOPTIMIZE", "PANDAS_COPY_ON_WRITE", "VERIF_LOGGING", "VERIF_WEAK_HASH", "OMP_NUM_THREADS", "VERIF_INTERRUPT_FIRST", "VERIF_FAST_CLOCK")
     want = {"PYTHONHASHSEED": "0"}
     if args.envsweep:
         want = {k: os.environ[k] for k in KEYS if k in os.environ}
